@@ -59,3 +59,691 @@ Proof.
     { destruct (Z_le_gt_dec first last); [assumption|]. replace (Z.to_nat (last - first + 1)) with 0%nat in E by lia. discriminate. }
     split; [assumption|lia].
 Qed.
+
+(* ---------- lists: slices, writes, resizing (pointwise, default 0) ---------- *)
+
+Lemma nth_firstn_lt {A} (l : list A) m p d : (p < m)%nat -> nth p (firstn m l) d = nth p l d.
+Proof.
+  revert l p. induction m as [|m IH]; intros l p Hp; [lia|]. destruct l as [|x l]; [reflexivity|].
+  destruct p as [|p]; [reflexivity|]. cbn. apply IH. lia.
+Qed.
+
+Lemma nth_skipn_add {A} (l : list A) a p d : nth p (skipn a l) d = nth (a + p) l d.
+Proof. revert l. induction a as [|a IH]; intros l; [reflexivity|]. destruct l as [|x l]; [destruct p; reflexivity|]. cbn. apply IH. Qed.
+
+Lemma nth_slice {A} (l : list A) a m p d : (p < m)%nat -> nth p (slice l a m) d = nth (a + p) l d.
+Proof.
+  intros Hp. unfold slice. rewrite nth_firstn_lt by exact Hp. apply nth_skipn_add.
+Qed.
+
+Lemma list_eq_nth {A} (l1 l2 : list A) d : length l1 = length l2 ->
+  (forall p, (p < length l1)%nat -> nth p l1 d = nth p l2 d) -> l1 = l2.
+Proof. intros Hl Hn. apply (nth_ext l1 l2 d d Hl Hn). Qed.
+
+Lemma slice_eq_nth {A} (f g : list A) a m d : (a + m <= length f)%nat -> (a + m <= length g)%nat ->
+  (slice f a m = slice g a m <-> forall p, (p < m)%nat -> nth (a + p) f d = nth (a + p) g d).
+Proof.
+  intros Hf Hg. split.
+  - intros E p Hp. rewrite <- !(nth_slice _ a m p d Hp). now rewrite E.
+  - intros Hn. apply (list_eq_nth _ _ d); [rewrite !slice_length; auto|].
+    intros p Hp. rewrite slice_length in Hp by exact Hf. rewrite !nth_slice by exact Hp. apply Hn. exact Hp.
+Qed.
+
+Lemma nth_repeat0 q k : nth q (repeat 0%N k) 0%N = 0%N.
+Proof. revert q. induction k; intros [|q]; cbn; auto. Qed.
+
+Lemma nth_resize f k q : nth q (resize f k) 0%N = if (q <? k)%nat then nth q f 0%N else 0%N.
+Proof.
+  unfold resize. destruct (q <? k)%nat eqn:E.
+  - apply Nat.ltb_lt in E. destruct (Nat.lt_ge_cases q (length f)) as [Hq|Hq].
+    + rewrite app_nth1 by (rewrite firstn_length; lia). apply nth_firstn_lt. exact E.
+    + rewrite app_nth2 by (rewrite firstn_length; lia). rewrite nth_repeat0. symmetry. apply nth_overflow. exact Hq.
+  - apply Nat.ltb_ge in E. apply nth_overflow. rewrite app_length, firstn_length, repeat_length. lia.
+Qed.
+
+Lemma resize_length f k : length (resize f k) = k.
+Proof. unfold resize. rewrite app_length, firstn_length, repeat_length. lia. Qed.
+
+Lemma write_at_length f off d : (off + length d <= length f)%nat -> length (write_at f off d) = length f.
+Proof.
+  intros Hle. unfold write_at. replace (off + length d - length f)%nat with 0%nat by lia. cbn [repeat]. rewrite app_nil_r.
+  rewrite !app_length, firstn_length, skipn_length. lia.
+Qed.
+
+Lemma nth_write_at f off d q x : (off + length d <= length f)%nat ->
+  nth q (write_at f off d) x =
+  if (q <? off)%nat then nth q f x else if (q <? off + length d)%nat then nth (q - off) d x else nth q f x.
+Proof.
+  intros Hle. unfold write_at. replace (off + length d - length f)%nat with 0%nat by lia. cbn [repeat]. rewrite app_nil_r.
+  destruct (q <? off)%nat eqn:E1.
+  - apply Nat.ltb_lt in E1. rewrite app_nth1 by (rewrite firstn_length; lia). apply nth_firstn_lt. exact E1.
+  - apply Nat.ltb_ge in E1. rewrite app_nth2 by (rewrite firstn_length; lia). rewrite firstn_length.
+    replace (Nat.min off (length f)) with off by lia.
+    destruct (q <? off + length d)%nat eqn:E2.
+    + apply Nat.ltb_lt in E2. rewrite app_nth1 by lia. reflexivity.
+    + apply Nat.ltb_ge in E2. rewrite app_nth2 by lia. rewrite nth_skipn_add. f_equal. lia.
+Qed.
+
+(* ---------- the cache file against the blob ---------- *)
+
+Lemma pos_in_chunk idx : forall st q, tiles_from st idx -> (st <= q < end_from st idx)%N ->
+  exists j r, nth_error idx j = Some r /\ (r_start r <= q < r_start r + r_size r)%N.
+Proof.
+  induction idx as [|a rest IH]; intros st q Ht Hq; [cbn in Hq; lia|].
+  destruct Ht as [Hs [Hp Hr]]. cbn [end_from] in Hq.
+  destruct (N.lt_ge_cases q (st + r_size a)) as [Hlt|Hge].
+  - exists 0%nat, a. split; [reflexivity|lia].
+  - destruct (IH _ q Hr ltac:(lia)) as [j [r [Hn Hin]]]. exists (S j), r. split; assumption.
+Qed.
+
+Section SparseSpec.
+  Variable H : bytes -> id.
+  Variable idx : index.
+  Variable blob : bytes.
+  Hypothesis Hd : index_describes H idx blob.
+  Let n := length idx.
+  Let Lb := length blob.
+  Let Ht : tiles_from 0 idx := proj1 Hd.
+
+  Notation good := (range_good idx blob).
+
+  Lemma row_in_blob i r : nth_error idx i = Some r -> (N.to_nat (r_start r) + N.to_nat (r_size r) <= Lb)%nat.
+  Proof. intros Hn. exact (proj2 (proj2 (describes_row H idx blob Hd i r Hn))). Qed.
+
+  Lemma good_nth f i r : length f = Lb -> nth_error idx i = Some r ->
+    (good f i <-> forall p, (p < N.to_nat (r_size r))%nat ->
+                   nth (N.to_nat (r_start r) + p) f 0%N = nth (N.to_nat (r_start r) + p) blob 0%N).
+  Proof.
+    intros Hl Hn. pose proof (row_in_blob i r Hn) as Hin. unfold range_good. split.
+    - intros Hg. apply (slice_eq_nth f blob _ _ 0%N); [lia|exact Hin|]. exact (Hg r Hn).
+    - intros Hp r' Hn'. rewrite Hn in Hn'. inversion Hn'; subst r'. unfold chunk_of.
+      apply (slice_eq_nth f blob _ _ 0%N); [lia|exact Hin|exact Hp].
+  Qed.
+
+  (* writing chunk i's bytes at its offset makes range i good and keeps every good range good *)
+  Lemma write_good f i ri : length f = Lb -> nth_error idx i = Some ri ->
+    let f' := write_at f (N.to_nat (r_start ri)) (chunk_of blob ri) in
+    length f' = Lb /\ good f' i /\ forall j, good f j -> good f' j.
+  Proof.
+    intros Hl Hn f'. pose proof (row_in_blob i ri Hn) as Hin.
+    assert (Hlc : length (chunk_of blob ri) = N.to_nat (r_size ri)) by (unfold chunk_of; apply slice_length; exact Hin).
+    assert (Hl' : length f' = Lb) by (unfold f'; rewrite write_at_length; lia).
+    assert (Hnth : forall q, nth q f' 0%N = nth q blob 0%N \/ nth q f' 0%N = nth q f 0%N).
+    { intros q. unfold f'. rewrite nth_write_at by lia. destruct (q <? N.to_nat (r_start ri))%nat eqn:E0; [right; reflexivity|].
+      destruct (q <? N.to_nat (r_start ri) + length (chunk_of blob ri))%nat eqn:E; [|right; reflexivity].
+      apply Nat.ltb_lt in E. apply Nat.ltb_ge in E0. left. unfold chunk_of. rewrite nth_slice by lia. f_equal. lia. }
+    split; [exact Hl'|]. split.
+    - apply (proj2 (good_nth f' i ri Hl' Hn)). intros p Hp. unfold f'. rewrite nth_write_at by lia.
+      replace (N.to_nat (r_start ri) + p <? N.to_nat (r_start ri))%nat with false by (symmetry; apply Nat.ltb_ge; lia).
+      replace (N.to_nat (r_start ri) + p <? N.to_nat (r_start ri) + length (chunk_of blob ri))%nat with true
+        by (symmetry; apply Nat.ltb_lt; lia).
+      unfold chunk_of. rewrite nth_slice by lia. f_equal. lia.
+    - intros j Hg r Hnj. assert (Hg' : good f' j); [|exact (Hg' r Hnj)].
+      apply (proj2 (good_nth f' j r Hl' Hnj)). intros p Hp.
+      destruct (Hnth (N.to_nat (r_start r) + p)%nat) as [E|E]; [exact E|]. rewrite E.
+      apply (proj1 (good_nth f j r Hl Hnj) Hg p Hp).
+  Qed.
+
+  Definition overlaps (r : row) (off : Z) (len : nat) : Prop :=
+    Z.of_N (r_start r) < off + Z.of_nat len /\ off < r_end r.
+
+  (* if every chunk that overlaps [off, off+len) is good, ReadAt on the file returns the blob's bytes *)
+  Lemma range_eq f off len : length f = Lb -> 0 <= off ->
+    (forall j r, nth_error idx j = Some r -> overlaps r off len -> good f j) ->
+    let m := Nat.min len (Lb - Z.to_nat off) in
+    slice f (Z.to_nat off) m = slice blob (Z.to_nat off) m.
+  Proof.
+    intros Hl Hoff Hg m. set (o := Z.to_nat off).
+    destruct (Nat.le_gt_cases Lb o) as [Hge|Hlt].
+    { replace m with 0%nat by (unfold m; fold o; lia). reflexivity. }
+    apply (slice_eq_nth f blob o m 0%N); [unfold m; fold o; lia|unfold m; fold o; lia|].
+    intros p Hp. pose proof Hd as [_ [He _]]. fold Lb in He.
+    destruct (pos_in_chunk idx 0%N (N.of_nat (o + p)) Ht ltac:(unfold m in Hp; fold o in Hp; lia)) as [j [r [Hn Hin]]].
+    assert (Hov : overlaps r off len). { unfold overlaps. rewrite r_end_eq. unfold m in Hp. fold o in Hp. lia. }
+    pose proof (proj1 (good_nth f j r Hl Hn) (Hg j r Hn Hov) (o + p - N.to_nat (r_start r))%nat ltac:(lia)) as E.
+    replace (N.to_nat (r_start r) + (o + p - N.to_nat (r_start r)))%nat with (o + p)%nat in E by lia. exact E.
+  Qed.
+
+  Lemma zero_good f i r : length f = Lb -> nth_error idx i = Some r ->
+    chunk_of blob r = repeat 0%N (N.to_nat (r_size r)) ->
+    (forall p, (p < N.to_nat (r_size r))%nat -> nth (N.to_nat (r_start r) + p) f 0%N = 0%N) -> good f i.
+  Proof.
+    intros Hl Hn Hz Hp. apply (proj2 (good_nth f i r Hl Hn)). intros p Hlt. etransitivity; [exact (Hp p Hlt)|].
+    pose proof (row_in_blob i r Hn) as Hin.
+    assert (E : nth p (chunk_of blob r) 0%N = 0%N) by (rewrite Hz; apply nth_repeat0).
+    unfold chunk_of in E. rewrite nth_slice in E by exact Hlt. symmetry. exact E.
+  Qed.
+
+  Variable maxsz : N.
+  Let nullid : id := snd (new_null_chunk H maxsz).
+
+  (* a row carrying the null chunk's ID is a run of zeros (or H collides) *)
+  Lemma null_row_zero i r : nth_error idx i = Some r -> r_id r = nullid ->
+    chunk_of blob r = repeat 0%N (N.to_nat (r_size r)) \/ Collision H.
+  Proof.
+    intros Hn Hid. destruct (describes_row H idx blob Hd i r Hn) as [Hh [Hlen _]].
+    destruct (hash_eq H (chunk_of blob r) (repeat 0%N (N.to_nat maxsz))) as [E|C]; [|left|right; exact C].
+    - rewrite Hh, Hid. reflexivity.
+    - rewrite E in Hlen. rewrite repeat_length in Hlen. rewrite E. f_equal. exact Hlen.
+  Qed.
+
+End SparseSpec.
+
+(* ---------- indexRange covers the requested bytes ---------- *)
+
+Lemma scan_last_ge_base rows e : forall base, base <= scan_last rows e base.
+Proof.
+  induction rows as [|r rest IH]; intros base; cbn [scan_last]; [lia|].
+  destruct (e <? Z.of_N (r_start r)); [lia|]. specialize (IH (base + 1)). lia.
+Qed.
+
+Lemma scan_last_covers e : forall rows base,
+  (forall a b ra rb, (a <= b)%nat -> nth_error rows a = Some ra -> nth_error rows b = Some rb ->
+                     (r_start ra <= r_start rb)%N) ->
+  forall m r, nth_error rows m = Some r -> Z.of_N (r_start r) <= e ->
+              base + Z.of_nat m + 1 <= scan_last rows e base.
+Proof.
+  induction rows as [|r0 rest IH]; intros base Hmono m r Hn Hle; [destruct m; discriminate|].
+  cbn [scan_last]. destruct (e <? Z.of_N (r_start r0)) eqn:E.
+  - apply Z.ltb_lt in E. pose proof (Hmono 0%nat m r0 r ltac:(lia) eq_refl Hn). lia.
+  - destruct m as [|m].
+    + pose proof (scan_last_ge_base rest e (base + 1)). lia.
+    + cbn in Hn. assert (Hmono' : forall a b ra rb, (a <= b)%nat -> nth_error rest a = Some ra ->
+                                   nth_error rest b = Some rb -> (r_start ra <= r_start rb)%N).
+      { intros a b ra rb Hab Ha Hb. apply (Hmono (S a) (S b) ra rb); [lia|exact Ha|exact Hb]. }
+      specialize (IH (base + 1) Hmono' m r Hn Hle). lia.
+Qed.
+
+Lemma nth_error_skipn_add {A} (l : list A) a p : nth_error (skipn a l) p = nth_error l (a + p).
+Proof. revert l. induction a as [|a IH]; intros l; [reflexivity|]. destruct l as [|x l]; [destruct p; reflexivity|]. cbn. apply IH. Qed.
+
+Lemma index_range_covers idx off len : tiles_from 0 idx -> 0 <= off -> (1 <= len)%nat ->
+  off + Z.of_nat len < two64 ->
+  exists first last, index_range idx off (Z.of_nat len) = Some (first, last) /\
+    forall j r, nth_error idx j = Some r -> Z.of_N (r_start r) < off + Z.of_nat len -> off < r_end r ->
+                first <= Z.of_nat j <= last.
+Proof.
+  intros Ht Hoff Hlen Hb. unfold index_range.
+  destruct (go_search_least (length idx) _ (search_pred_mono idx Ht off)) as [f [Es [Hf [Hlo Hhi]]]].
+  rewrite Es. replace (Z.of_nat len <? 1) with false by (symmetry; apply Z.ltb_ge; lia).
+  assert (Hfirst : forall j r, nth_error idx j = Some r -> off < r_end r -> (f <= j)%nat).
+  { intros j r Hn He. destruct (Nat.le_gt_cases f j) as [|Hlt]; [assumption|]. exfalso.
+    specialize (Hlo j Hlt). cbn beta in Hlo. rewrite (nth_error_nth _ _ row0 Hn) in Hlo. apply Z.ltb_ge in Hlo. lia. }
+  destruct (length idx <=? f)%nat eqn:Ef.
+  - apply Nat.leb_le in Ef. eexists _, _. split; [reflexivity|]. intros j r Hn _ He. exfalso.
+    pose proof (Hfirst j r Hn He). assert (j < length idx)%nat by (apply nth_error_Some; congruence). lia.
+  - apply Nat.leb_gt in Ef. eexists _, _. split; [reflexivity|]. intros j r Hn Hs He.
+    pose proof (Hfirst j r Hn He) as Hfj. split; [lia|].
+    destruct (Nat.eq_dec j f) as [->|Hne].
+    + pose proof (scan_last_ge_base (skipn (S f) idx) ((off + Z.of_nat len - 1) mod two64) (Z.of_nat f)). lia.
+    + assert (Hmod : (off + Z.of_nat len - 1) mod two64 = off + Z.of_nat len - 1) by (apply Z.mod_small; lia).
+      rewrite Hmod.
+      pose proof (scan_last_covers (off + Z.of_nat len - 1) (skipn (S f) idx) (Z.of_nat f)) as Hc.
+      assert (Hmono : forall a b ra rb, (a <= b)%nat -> nth_error (skipn (S f) idx) a = Some ra ->
+                        nth_error (skipn (S f) idx) b = Some rb -> (r_start ra <= r_start rb)%N).
+      { intros a b ra rb Hab Ha Hb'. rewrite nth_error_skipn_add in Ha, Hb'.
+        destruct (Nat.eq_dec a b) as [->|Hab']; [rewrite Ha in Hb'; inversion Hb'; lia|].
+        pose proof (tiles_lt _ _ Ht (S f + a) (S f + b) ra rb ltac:(lia) Ha Hb'). lia. }
+      specialize (Hc Hmono (j - S f)%nat r).
+      rewrite nth_error_skipn_add in Hc. replace (S f + (j - S f))%nat with j in Hc by lia.
+      specialize (Hc Hn ltac:(lia)). lia.
+Qed.
+
+Lemma nth_set_nth_other {A} (l : list A) i j x d : j <> i -> nth j (set_nth l i x) d = nth j l d.
+Proof.
+  revert i j. induction l as [|a l IH]; intros [|i] [|j] Hne; cbn; auto; try congruence.
+Qed.
+
+(* ---------- the invariant of the loader, preserved by every step of every goroutine and every restart ---------- *)
+
+Section SparseInv.
+  Variable H : bytes -> id.
+  Variable idx : index.
+  Variable blob : bytes.
+  Hypothesis Hd : index_describes H idx blob.
+  Variable maxsz : N.
+  Variable store : store_t.
+  Hypothesis Hs : store_sound H store.
+  Let nullid : id := snd (new_null_chunk H maxsz).
+  Let n := length idx.
+  Let Lb := length blob.
+  Let Ht : tiles_from 0 idx := proj1 Hd.
+  Notation good := (range_good idx blob).
+
+  Definition todo_of (p : phase) : list nat :=
+    match p with PNeed t => t | PFetch i t => i :: t | PWrite i _ t => i :: t | PSet _ t => t end.
+
+  Definition thread_ok (f : bytes) (th : thread) : Prop :=
+    Forall (fun rq => valid_request idx rq = true) (queue th) /\
+    match pc th with
+    | None => True
+    | Some p =>
+        queue th <> [] /\
+        Forall (fun i => (i < n)%nat) (todo_of p) /\
+        match p with
+        | PNeed _ => True
+        | PFetch i _ => True
+        | PWrite i d _ => d = chunk_of blob (nth i idx row0)
+        | PSet i _ => (i < n)%nat /\ good f i
+        end /\
+        match queue th with
+        | RqRead off len :: _ =>
+            0 <= off -> (1 <= len)%nat -> off + Z.of_nat len < two64 ->
+            forall j r, nth_error idx j = Some r -> overlaps r off len -> In j (todo_of p) \/ good f j
+        | _ => True
+        end
+    end.
+
+  Record SInv (s : sstate) : Prop := {
+    inv_len : length (s_file s) = Lb;
+    inv_done : forall i r, nth_error idx i = Some r ->
+                 (nth i (s_done s) false = true \/ r_id r = nullid) -> good (s_file s) i;
+    inv_saved : s_stale s = false -> forall b, s_saved s = Some b ->
+                 forall i, nth i b false = true -> good (s_file s) i;
+    inv_threads : Forall (thread_ok (s_file s)) (s_threads s);
+    inv_log : Forall (read_result_ok blob) (s_log s);
+  }.
+
+  Lemma thread_ok_mono f f' th : (forall j, good f j -> good f' j) -> thread_ok f th -> thread_ok f' th.
+  Proof.
+    intros Hm. unfold thread_ok. intros [Hv Hrest]. split; [exact Hv|]. revert Hrest. destruct (pc th) as [p|]; [|auto].
+    intros [A [B [C D]]]. split; [exact A|]. split; [exact B|]. split.
+    - destruct p; auto. destruct C as [C1 C2]. split; [exact C1|apply Hm; exact C2].
+    - destruct (queue th) as [|[off len| |] q]; auto.
+      intros H1 H2 H3 j r Hn Ho. destruct (D H1 H2 H3 j r Hn Ho) as [E|E]; [left; exact E|right; apply Hm; exact E].
+  Qed.
+
+  Lemma Lb_eq : Z.to_nat (idx_length idx) = Lb.
+  Proof. rewrite (L_blob H idx blob Hd). unfold Lb. lia. Qed.
+
+  Lemma nth_row i : (i < n)%nat -> nth_error idx i = Some (nth i idx row0).
+  Proof. intros Hi. destruct (nth_ok idx i row0 Hi) as [r [E1 E2]]. rewrite E2. exact E1. Qed.
+
+  (* ---- one atomic step of a goroutine ---- *)
+  Lemma idle_ok f q : Forall (fun rq => valid_request idx rq = true) q -> thread_ok f (mkthread q None).
+  Proof. intros Hq. split; [exact Hq|exact I]. Qed.
+
+  Lemma tstep_inv s k s' : SInv s -> tstep idx nullid store s k = Some s' -> SInv s' \/ Collision H.
+  Proof.
+    intros [Il Id Is It Ig] E. unfold tstep in E.
+    destruct (nth_error (s_threads s) k) as [th|] eqn:Ek; [|discriminate].
+    assert (Hth : thread_ok (s_file s) th) by (rewrite Forall_forall in It; apply It; eapply nth_error_In; eauto).
+    unfold thread_ok in Hth. destruct Hth as [Hvalid Hth].
+    destruct (queue th) as [|rq q] eqn:Eq.
+    { destruct (pc th) as [[[|? ?]|? ?|? ? ?|? ?]|]; discriminate. }
+    assert (Hvq : Forall (fun rq => valid_request idx rq = true) q) by (inversion Hvalid; assumption).
+    destruct (pc th) as [p|] eqn:Epc.
+    - (* in the middle of a request *)
+      destruct Hth as [_ [Htodo [Hp Hcov]]].
+      destruct p as [todo|i todo|i d todo|i todo].
+      + destruct todo as [|i todo].
+        * (* all chunks loaded: the request completes *)
+          assert (Hres : read_result_ok blob (rq, match rq with RqRead off len => file_read (s_file s) off len | _ => RDone end)).
+          { destruct rq as [off len| |]; cbn; auto. unfold file_read. destruct (off <? 0) eqn:En; [exact I|].
+            apply Z.ltb_ge in En. intros Hb. split; [exact En|].
+            set (m := Nat.min len (length (s_file s) - Z.to_nat off)).
+            assert (Hm : m = Nat.min len (Lb - Z.to_nat off)) by (unfold m; rewrite Il; reflexivity).
+            assert (Hsl : length (slice (s_file s) (Z.to_nat off) m) = m) by (unfold slice; rewrite firstn_length, skipn_length; lia).
+            cbn [length] in *. rewrite Hsl. split; [|split; [exact Hm|reflexivity]].
+            destruct len as [|len']; [reflexivity|]. rewrite Hm.
+            apply (range_eq H idx blob Hd (s_file s) off (S len') Il En).
+            intros j r Hn Ho. destruct (Hcov En ltac:(lia) Hb j r Hn Ho) as [[]|Hg]. exact Hg. }
+          left. assert (s' = finish s k th (match rq with RqRead off len => file_read (s_file s) off len | _ => RDone end))
+            by (destruct rq; inversion E; reflexivity).
+          subst s'. unfold finish. rewrite Eq. constructor; cbn; auto.
+          -- apply set_nth_Forall; [exact It|apply idle_ok; exact Hvq].
+        * (* loadChunk(i): lock, re-check *)
+          inversion Htodo as [|? ? Hi Htodo']; subst.
+          destruct (nth i (s_mutex s) true); [discriminate|].
+          destruct (nth i (s_done s) false) eqn:Edone.
+          -- inversion E; subst s'. left. constructor; cbn; auto.
+             apply set_nth_Forall; [exact It|]. unfold thread_ok. cbn [pc queue]. rewrite Eq. split; [exact Hvalid|].
+             split; [discriminate|]. split; [exact Htodo'|]. split; [exact I|].
+             destruct rq as [off len| |]; auto. intros H1 H2 H3 j r Hn Ho.
+             destruct (Hcov H1 H2 H3 j r Hn Ho) as [[<-|Hin]|Hg]; [right|left; exact Hin|right; exact Hg].
+             apply (Id i r Hn). left. exact Edone.
+          -- inversion E; subst s'. left. constructor; cbn; auto.
+             apply set_nth_Forall; [exact It|]. unfold thread_ok. cbn [pc queue]. rewrite Eq. split; [exact Hvalid|].
+             split; [discriminate|]. split; [exact Htodo|]. split; [exact I|exact Hcov].
+      + (* GetChunk *)
+        inversion Htodo as [|? ? Hi Htodo']; subst.
+        destruct (store (s_calls s) (r_id (nth i idx row0))) as [d|c] eqn:Est.
+        * destruct (length d =? 0)%nat eqn:El.
+          -- inversion E; subst s'. left. unfold finish. rewrite Eq. constructor; cbn; auto.
+             ++ apply set_nth_Forall; [exact It|apply idle_ok; exact Hvq].
+             ++ constructor; [destruct rq; exact I|exact Ig].
+          -- inversion E; subst s'.
+             pose proof (nth_row i Hi) as Hn.
+             destruct (describes_row H idx blob Hd i _ Hn) as [Hh _].
+             destruct (hash_eq H d (chunk_of blob (nth i idx row0))) as [Ed|C]; [rewrite Hh; apply (Hs _ _ _ Est)| |right; exact C].
+             left. constructor; cbn; auto.
+             apply set_nth_Forall; [exact It|]. unfold thread_ok. cbn [pc queue]. rewrite Eq. split; [exact Hvalid|].
+             split; [discriminate|]. split; [exact Htodo|]. split; [exact Ed|exact Hcov].
+        * inversion E; subst s'. left. unfold finish. rewrite Eq. constructor; cbn; auto.
+          -- apply set_nth_Forall; [exact It|apply idle_ok; exact Hvq].
+          -- constructor; [destruct rq; exact I|exact Ig].
+      + (* WriteAt *)
+        inversion Htodo as [|? ? Hi Htodo']; subst. inversion E; subst s'. clear E.
+        pose proof (nth_row i Hi) as Hn.
+        destruct (write_good H idx blob Hd (s_file s) i _ Il Hn) as [Hl' [Hgi Hmono]].
+        left. constructor; cbn [s_file s_done s_saved s_stale s_threads s_log set_pc upd_thread].
+        -- exact Hl'.
+        -- intros j r Hnj Hor. apply Hmono. exact (Id j r Hnj Hor).
+        -- intros Hst b Hb j Hj. apply Hmono. exact (Is Hst b Hb j Hj).
+        -- apply set_nth_Forall.
+           ++ eapply Forall_impl; [|exact It]. intros th0. apply thread_ok_mono. exact Hmono.
+           ++ unfold thread_ok. cbn [pc queue]. rewrite Eq. split; [exact Hvalid|].
+              split; [discriminate|]. split; [exact Htodo'|]. split; [split; [exact Hi|exact Hgi]|].
+              destruct rq as [off len| |]; auto. intros H1 H2 H3 j r Hnj Ho.
+              destruct (Hcov H1 H2 H3 j r Hnj Ho) as [[<-|Hin]|Hg]; [right; exact Hgi|left; exact Hin|right; apply Hmono; exact Hg].
+        -- exact Ig.
+      + (* done.Set *)
+        destruct Hp as [Hi Hgi]. inversion E; subst s'. clear E.
+        left. constructor; cbn [s_file s_done s_saved s_stale s_threads s_log set_pc upd_thread]; auto.
+        -- intros j r Hnj [Hdn|Hnull]; [|apply (Id j r Hnj); right; exact Hnull].
+           destruct (Nat.eq_dec j i) as [->|Hne]; [exact Hgi|].
+           apply (Id j r Hnj). left. rewrite <- Hdn. symmetry. apply nth_set_nth_other. exact Hne.
+        -- apply set_nth_Forall; [exact It|]. unfold thread_ok. cbn [pc queue]. rewrite Eq. split; [exact Hvalid|].
+           split; [discriminate|]. split; [exact Htodo|]. split; [exact I|exact Hcov].
+    - (* a goroutine picks up its next request *)
+      destruct rq as [off len|i|].
+      + destruct (index_range idx off (Z.of_nat len)) as [[first last]|] eqn:Er; [|discriminate].
+        pose proof (needed_spec idx nullid (s_done s) first last) as Hnd.
+        destruct (needed idx nullid (s_done s) first last) as [todo|].
+        * inversion E; subst s'. left. constructor; cbn; auto.
+          apply set_nth_Forall; [exact It|]. unfold thread_ok. cbn [pc queue]. rewrite Eq. split; [exact Hvalid|].
+          destruct Hnd as [Hrange Hin].
+          split; [discriminate|]. split; [|split; [exact I|]].
+          -- apply Forall_forall. intros j Hj. apply Hin in Hj. fold n. lia.
+          -- intros H1 H2 H3 j r Hnj [Ho1 Ho2].
+             destruct (index_range_covers idx off len Ht H1 H2 H3) as [f' [l' [Er' Hc]]].
+             rewrite Er in Er'. inversion Er'; subst f' l'.
+             specialize (Hc j r Hnj Ho1 Ho2).
+             destruct (nth j (s_done s) false) eqn:Edn; [right; apply (Id j r Hnj); left; exact Edn|].
+             destruct (N.eqb (r_id (nth j idx row0)) nullid) eqn:En.
+             ++ right. apply (Id j r Hnj). right. apply N.eqb_eq in En. rewrite (nth_error_nth _ _ row0 Hnj) in En. exact En.
+             ++ left. apply Hin. split; [exact Hc|]. split; assumption.
+        * inversion E; subst s'. left. constructor; cbn; auto.
+      + inversion E; subst s'. left. constructor; cbn; auto.
+        apply set_nth_Forall; [exact It|]. unfold thread_ok. cbn [pc queue]. rewrite Eq. split; [exact Hvalid|].
+        split; [discriminate|]. split; [|split; exact I].
+        (* the request was validated when it was handed over *)
+        constructor; [|constructor]. inversion Hvalid as [|? ? Hv _]. cbn in Hv. apply Nat.ltb_lt in Hv. exact Hv.
+      + inversion E; subst s'. left. unfold finish. cbn [queue]. rewrite Eq. constructor; cbn; auto.
+        -- intros _ b Hb i Hi. inversion Hb; subst b. intros r Hn. exact (Id i r Hn (or_introl Hi) r Hn).
+        -- apply set_nth_Forall; [exact It|apply idle_ok; exact Hvq].
+  Qed.
+
+  Lemma resize_same f k : length f = k -> resize f k = f.
+  Proof. intros <-. unfold resize. rewrite firstn_all, Nat.sub_diag. apply app_nil_r. Qed.
+
+  Lemma nth_repeat_false i k : nth i (repeat false k) false = false.
+  Proof. revert i. induction k; intros [|i]; cbn; auto. Qed.
+
+  Lemma no_rows : Lb = 0%nat -> forall i r, nth_error idx i = Some r -> False.
+  Proof.
+    intros HL i r Hn. pose proof (row_in_blob H idx blob Hd i r Hn) as Hin. fold Lb in Hin.
+    destruct (tiles_nth _ _ Ht _ _ Hn) as [_ [Hp _]]. lia.
+  Qed.
+
+  (* every row that carries the null chunk's ID is a run of zeros, or H collides *)
+  Lemma all_null_zero :
+    (forall i r, nth_error idx i = Some r -> r_id r = nullid -> chunk_of blob r = repeat 0%N (N.to_nat (r_size r)))
+    \/ Collision H.
+  Proof.
+    assert (Hl : forall l, (forall r, In r l -> exists i, nth_error idx i = Some r) ->
+                 (forall r, In r l -> r_id r = nullid -> chunk_of blob r = repeat 0%N (N.to_nat (r_size r))) \/ Collision H).
+    { induction l as [|a l IH]; intros Hin; [left; intros r []|].
+      destruct IH as [IH|C]; [intros r Hr; apply Hin; right; exact Hr| |right; exact C].
+      destruct (N.eq_dec (r_id a) nullid) as [Ea|Ea].
+      - destruct (Hin a (or_introl eq_refl)) as [i Hi].
+        destruct (null_row_zero H idx blob Hd maxsz i a Hi Ea) as [Z|C]; [|right; exact C].
+        left. intros r [<-|Hr] Hid; [exact Z|exact (IH r Hr Hid)].
+      - left. intros r [<-|Hr] Hid; [contradiction|exact (IH r Hr Hid)]. }
+    destruct (Hl idx) as [A|C]; [intros r Hr; apply In_nth_error; exact Hr| |right; exact C].
+    left. intros i r Hn. apply A. eapply nth_error_In; eauto.
+  Qed.
+
+  (* ---- NewSparseFile on what the previous incarnation left behind ---- *)
+  Lemma restart_inv s m : SInv s -> s_stale s && m_state m = false -> SInv (restart idx s m) \/ Collision H.
+  Proof.
+    intros [Il Id Is It Ig] Hpair.
+    destruct all_null_zero as [Hz|C]; [|right; exact C]. left.
+    unfold restart. rewrite Lb_eq. fold n.
+    set (cache := match m_cache m with CKeep => s_file s | CAbsent => [] | CResize k => resize (s_file s) k end).
+    assert (Hcache : forall q, nth q cache 0%N = 0%N \/ nth q cache 0%N = nth q (s_file s) 0%N).
+    { intros q. unfold cache. destruct (m_cache m) as [| |k]; [right; reflexivity|left; destruct q; reflexivity|].
+      rewrite nth_resize. destruct (q <? k)%nat; [right; reflexivity|left; reflexivity]. }
+    (* ranges of null rows are zero in the old file, hence in whatever is made of it *)
+    assert (Hnull : forall f', length f' = Lb -> (forall q, nth q f' 0%N = 0%N \/ nth q f' 0%N = nth q (s_file s) 0%N) ->
+                     forall i r, nth_error idx i = Some r -> r_id r = nullid -> good f' i).
+    { intros f' Hl' Hq i r Hn Hid. apply (zero_good H idx blob Hd f' i r Hl' Hn (Hz i r Hn Hid)).
+      intros p Hp. destruct (Hq (N.to_nat (r_start r) + p)%nat) as [E|E]; [exact E|]. etransitivity; [exact E|].
+      pose proof (proj1 (good_nth H idx blob Hd (s_file s) i r Il Hn) (Id i r Hn (or_intror Hid)) p Hp) as Eg.
+      etransitivity; [exact Eg|].
+      pose proof (row_in_blob H idx blob Hd i r Hn) as Hin.
+      assert (E0 : nth p (chunk_of blob r) 0%N = 0%N) by (rewrite (Hz i r Hn Hid); apply nth_repeat0).
+      unfold chunk_of in E0. rewrite nth_slice in E0 by exact Hp. exact E0. }
+    destruct ((length cache =? Lb)%nat &&
+              match s_saved s with Some b => m_state m && state_matches idx b | None => false end) eqn:Euse.
+    - (* the state file is loaded *)
+      apply andb_true_iff in Euse. destruct Euse as [El Eu]. apply Nat.eqb_eq in El.
+      destruct (s_saved s) as [b|] eqn:Esaved; [|discriminate].
+      apply andb_true_iff in Eu. destruct Eu as [Em _]. rewrite Em, andb_true_r in Hpair.
+      assert (Hc : cache = s_file s \/ Lb = 0%nat).
+      { unfold cache in *. destruct (m_cache m) as [| |k]; [left; reflexivity|right; cbn in El; lia|].
+        left. rewrite resize_length in El. subst k. apply resize_same. exact Il. }
+      constructor; cbn [s_file s_done s_saved s_stale s_threads s_log].
+      + exact El.
+      + intros i r Hn [Hb|Hid].
+        * destruct Hc as [->|H0]; [exact (Is Hpair b eq_refl i Hb)|exfalso; exact (no_rows H0 i r Hn)].
+        * apply (Hnull cache El Hcache i r Hn Hid).
+      + intros Hst b' Hb' i Hi. inversion Hb'; subst b'. apply orb_false_iff in Hst. destruct Hst as [_ Hlost].
+        destruct (m_cache m) eqn:Emc; try discriminate. unfold cache. exact (Is Hpair b eq_refl i Hi).
+      + constructor.
+      + exact Ig.
+    - (* the state file is not used: every chunk counts as not loaded, the file is brought to full size *)
+      assert (Hl' : length (resize cache Lb) = Lb) by apply resize_length.
+      assert (Hq' : forall q, nth q (resize cache Lb) 0%N = 0%N \/ nth q (resize cache Lb) 0%N = nth q (s_file s) 0%N).
+      { intros q. rewrite nth_resize. destruct (q <? Lb)%nat; [apply Hcache|left; reflexivity]. }
+      constructor; cbn [s_file s_done s_saved s_stale s_threads s_log].
+      + exact Hl'.
+      + intros i r Hn [Hb|Hid]; [rewrite nth_repeat_false in Hb; discriminate|].
+        apply (Hnull _ Hl' Hq' i r Hn Hid).
+      + intros Hst b Hb i Hi. rewrite Hb in Hst. apply orb_false_iff in Hst. destruct Hst as [Hst Hlost].
+        destruct (m_cache m) eqn:Emc; try discriminate. unfold cache. rewrite (resize_same _ _ Il).
+        exact (Is Hst b Hb i Hi).
+      + destruct (s_saved s) as [b|]; [|constructor].
+        destruct (m_preload m && m_state m && state_matches idx b); [|constructor].
+        apply Forall_forall. intros th Hin. apply in_map_iff in Hin. destruct Hin as [i [<- Hi]].
+        apply filter_In in Hi. destruct Hi as [Hi _]. apply in_seq in Hi.
+        apply idle_ok. constructor; [|constructor]. cbn. apply Nat.ltb_lt. fold n. lia.
+      + exact Ig.
+  Qed.
+
+  Lemma init_inv : SInv (init idx) \/ Collision H.
+  Proof.
+    destruct all_null_zero as [Hz|C]; [|right; exact C]. left.
+    unfold init. rewrite Lb_eq. constructor; cbn [s_file s_done s_saved s_stale s_threads s_log].
+    - apply repeat_length.
+    - intros i r Hn [Hb|Hid]; [rewrite nth_repeat_false in Hb; discriminate|].
+      apply (zero_good H idx blob Hd _ i r (repeat_length _ _) Hn (Hz i r Hn Hid)). intros p _. apply nth_repeat0.
+    - intros _ b Hb. discriminate.
+    - constructor.
+    - constructor.
+  Qed.
+
+  (* ---- every label ---- *)
+  Lemma step_inv s l s' : SInv s -> step_paired idx nullid store s l = Some s' -> SInv s' \/ Collision H.
+  Proof.
+    intros Hinv E. unfold step_paired in E. destruct (stale_load s l) eqn:Esl; [discriminate|].
+    destruct l as [k|k rq|m]; cbn [step] in E.
+    - destruct (s_crashed s); [discriminate|]. exact (tstep_inv s k s' Hinv E).
+    - destruct (s_crashed s || negb (valid_request idx rq)) eqn:Ev; [discriminate|].
+      apply orb_false_iff in Ev. destruct Ev as [_ Ev]. apply negb_false_iff in Ev.
+      destruct Hinv as [Il Id Is It Ig]. left.
+      destruct (nth_error (s_threads s) k) as [th|] eqn:Ek; inversion E; subst s'; constructor; cbn; auto.
+      + assert (Hth : thread_ok (s_file s) th) by (rewrite Forall_forall in It; apply It; eapply nth_error_In; eauto).
+        apply set_nth_Forall; [exact It|]. unfold thread_ok in *. cbn [pc queue]. destruct Hth as [Hv Hth].
+        split; [apply Forall_app; split; [exact Hv|constructor; [exact Ev|constructor]]|].
+        destruct (pc th) as [p|]; [|exact I]. destruct Hth as [A [B [C D]]].
+        split; [intro E0; apply app_eq_nil in E0; destruct E0 as [_ E0]; discriminate|]. split; [exact B|]. split; [exact C|].
+        destruct (queue th) as [|rq0 q0]; [contradiction|exact D].
+      + apply Forall_app. split; [exact It|]. constructor; [|constructor]. apply idle_ok. constructor; [exact Ev|constructor].
+    - inversion E; subst s'. apply restart_inv; [exact Hinv|exact Esl].
+  Qed.
+End SparseInv.
+
+(* ---------- theorems over all schedules ---------- *)
+
+Theorem sparse_inv H idx blob maxsz store sched :
+  index_describes H idx blob -> store_sound H store ->
+  let nullid := snd (new_null_chunk H maxsz) in
+  loader_inv idx nullid blob (run (step_paired idx nullid store) sched (init idx)) \/ Collision H.
+Proof.
+  intros Hd Hs nullid.
+  pose (Inv := fun s => SInv H idx blob maxsz s \/ Collision H).
+  assert (Hrun : Inv (run (step_paired idx nullid store) sched (init idx))).
+  { apply (inv_run (step_paired idx nullid store) Inv).
+    - intros s l s' [Hi|C] E; [|right; exact C]. exact (step_inv H idx blob Hd maxsz store Hs s l s' Hi E).
+    - exact (init_inv H idx blob Hd maxsz). }
+  destruct Hrun as [[Il Id Is _ Ig]|C]; [left|right; exact C]. constructor; assumption.
+Qed.
+
+(* Every ReadAt that reported success -- under any interleaving of any number of readers, preload workers and
+   WriteState calls, any store faults, any sequence of restarts (kills included) that use the state file only
+   with the cache file it was saved for -- returned exactly blob[off, off+n), n = min(len, L-off). *)
+Theorem sparse_read_sound H idx blob maxsz store sched off len d eof :
+  index_describes H idx blob -> store_sound H store ->
+  let nullid := snd (new_null_chunk H maxsz) in
+  In (RqRead off len, ROk d eof) (s_log (run (step_paired idx nullid store) sched (init idx))) ->
+  off + Z.of_nat len < two64 ->
+  (0 <= off /\ d = slice blob (Z.to_nat off) (length d) /\
+   length d = Nat.min len (length blob - Z.to_nat off) /\ eof = (length d <? len)%nat) \/ Collision H.
+Proof.
+  intros Hd Hs nullid Hin Hb.
+  destruct (sparse_inv H idx blob maxsz store sched Hd Hs) as [[_ _ _ Hlog]|C]; [left|right; exact C].
+  rewrite Forall_forall in Hlog. exact (Hlog _ Hin Hb).
+Qed.
+
+(* A failed load leaves no trace: the done bits and the file are unchanged, the chunk's mutex is free again, and a
+   reader gets the store's error (a preload worker drops it).  Together with [needed_spec] (a chunk that is not done
+   and not null is on the list of every later read that covers it) and [sparse_read_sound] this is the retry rule:
+   the next read of that range calls the store again or fails. *)
+Theorem sparse_failed_load idx nullid store s k th i todo rq q c :
+  s_crashed s = false -> nth_error (s_threads s) k = Some th ->
+  pc th = Some (PFetch i todo) -> queue th = rq :: q ->
+  store (s_calls s) (r_id (nth i idx row0)) = SFail c ->
+  exists s', step idx nullid store s (LThread k) = Some s' /\
+    s_done s' = s_done s /\ s_file s' = s_file s /\ s_calls s' = S (s_calls s) /\
+    s_mutex s' = set_nth (s_mutex s) i false /\
+    nth_error (s_threads s') k = Some (mkthread q None) /\
+    s_log s' = (rq, match rq with RqRead _ _ => RErr (XStore c) | _ => RDone end) :: s_log s.
+Proof.
+  intros Hc Hk Hpc Hq Hst. cbn [step]. rewrite Hc. unfold tstep. rewrite Hk, Hpc, Hq, Hst.
+  eexists. split; [reflexivity|]. unfold finish. cbn [queue]. rewrite Hq. cbn.
+  repeat split. unfold upd_thread. clear -Hk. revert k Hk. generalize (s_threads s) as l.
+  induction l as [|a l IH]; intros [|k] Hk; cbn in *; try discriminate; auto.
+Qed.
+
+(* ---------- no panic when every ReadAt has a non-empty buffer and the index has chunks ---------- *)
+
+Lemma scan_last_le rows e : forall base, scan_last rows e base <= base + Z.of_nat (length rows).
+Proof.
+  induction rows as [|r rest IH]; intros base; cbn [scan_last length]; [lia|].
+  destruct (e <? Z.of_N (r_start r)); [lia|]. specialize (IH (base + 1)). lia.
+Qed.
+
+Lemma index_range_bounds idx off len : tiles_from 0 idx -> idx <> [] -> (1 <= len)%nat ->
+  exists first last, index_range idx off (Z.of_nat len) = Some (first, last) /\
+                     0 <= first <= last /\ last < Z.of_nat (length idx).
+Proof.
+  intros Ht Hne Hlen. unfold index_range.
+  destruct (go_search_least (length idx) _ (search_pred_mono idx Ht off)) as [f [Es [Hf _]]].
+  rewrite Es. replace (Z.of_nat len <? 1) with false by (symmetry; apply Z.ltb_ge; lia).
+  assert (0 < length idx)%nat by (destruct idx; [congruence|cbn; lia]).
+  destruct (length idx <=? f)%nat eqn:Ef.
+  - eexists _, _. split; [reflexivity|]. lia.
+  - apply Nat.leb_gt in Ef. eexists _, _. split; [reflexivity|].
+    pose proof (scan_last_ge_base (skipn (S f) idx) ((off + Z.of_nat len - 1) mod two64) (Z.of_nat f)).
+    pose proof (scan_last_le (skipn (S f) idx) ((off + Z.of_nat len - 1) mod two64) (Z.of_nat f)) as Hle.
+    rewrite skipn_length in Hle. lia.
+Qed.
+
+Section NoPanic.
+  Variable idx : index.
+  Variable nullid : id.
+  Variable store : store_t.
+  Hypothesis Ht : tiles_from 0 idx.
+  Hypothesis Hne : idx <> [].
+
+  Definition nz_request (rq : request) : Prop := match rq with RqRead _ len => (1 <= len)%nat | _ => True end.
+  Definition nz_state (s : sstate) : Prop :=
+    s_crashed s = false /\ Forall (fun th => Forall nz_request (queue th)) (s_threads s).
+
+  Lemma nz_set_nth s k th q p : nz_state s -> nth_error (s_threads s) k = Some th -> Forall nz_request q ->
+    Forall (fun th => Forall nz_request (queue th)) (set_nth (s_threads s) k (mkthread q p)).
+  Proof. intros [_ Hf] _ Hq. apply set_nth_Forall; [exact Hf|exact Hq]. Qed.
+
+  Lemma nz_step s l s' : nz_state s -> step_nonzero idx nullid store s l = Some s' -> nz_state s'.
+  Proof.
+    intros Hnz E. unfold step_nonzero in E. destruct (label_nonzero l) eqn:El; [|discriminate].
+    destruct l as [k|k rq|m]; cbn [step] in E.
+    - destruct Hnz as [Hc Hf]. rewrite Hc in E. unfold tstep in E.
+      destruct (nth_error (s_threads s) k) as [th|] eqn:Ek; [|discriminate].
+      assert (Hq : Forall nz_request (queue th)) by (rewrite Forall_forall in Hf; apply (Hf th); eapply nth_error_In; eauto).
+      destruct (queue th) as [|rq q] eqn:Eq.
+      { destruct (pc th) as [[[|? ?]|? ?|? ? ?|? ?]|]; discriminate. }
+      assert (Hq' : Forall nz_request q) by (inversion Hq; assumption).
+      assert (Hfin : forall r, nz_state (finish s k th r)).
+      { intros r. unfold finish. rewrite Eq. split; [exact Hc|]. cbn. apply set_nth_Forall; [exact Hf|exact Hq']. }
+      assert (Hset : forall s0 p, s_crashed s0 = false -> s_threads s0 = s_threads s -> nz_state (set_pc s0 k th p)).
+      { intros s0 p Hc0 Ht0. split; [exact Hc0|]. cbn. unfold upd_thread. rewrite Ht0. apply set_nth_Forall; [exact Hf|].
+        cbn. rewrite Eq. exact Hq. }
+      destruct (pc th) as [[[|i todo]|i todo|i d todo|i todo]|] eqn:Epc.
+      + destruct rq; inversion E; subst s'; apply Hfin.
+      + destruct (nth i (s_mutex s) true); [discriminate|]. destruct (nth i (s_done s) false); inversion E; subst s'; apply Hset; auto.
+      + destruct (store (s_calls s) (r_id (nth i idx row0))) as [d|c].
+        * destruct (length d =? 0)%nat; inversion E; subst s'.
+          -- unfold finish. rewrite Eq. split; [exact Hc|]. cbn. apply set_nth_Forall; [exact Hf|exact Hq'].
+          -- apply Hset; auto.
+        * inversion E; subst s'. unfold finish. rewrite Eq. split; [exact Hc|]. cbn. apply set_nth_Forall; [exact Hf|exact Hq'].
+      + inversion E; subst s'. apply Hset; auto.
+      + inversion E; subst s'. apply Hset; auto.
+      + destruct rq as [off len|i|].
+        * inversion Hq as [|? ? Hlen _]; subst. cbn in Hlen.
+          destruct (index_range_bounds idx off len Ht Hne Hlen) as [first [last [Er [Hb1 Hb2]]]].
+          rewrite Er in E. pose proof (needed_spec idx nullid (s_done s) first last) as Hnd.
+          destruct (needed idx nullid (s_done s) first last) as [todo|]; [|lia].
+          inversion E; subst s'. apply Hset; auto.
+        * inversion E; subst s'. apply Hset; auto.
+        * inversion E; subst s'. unfold finish. cbn [queue]. rewrite Eq. split; [exact Hc|]. cbn.
+          apply set_nth_Forall; [exact Hf|exact Hq'].
+    - destruct Hnz as [Hc Hf]. rewrite Hc in E. cbn [orb] in E. destruct (negb (valid_request idx rq)); [discriminate|].
+      assert (Hrq : nz_request rq) by (destruct rq; cbn in *; auto; apply Nat.leb_le; exact El).
+      destruct (nth_error (s_threads s) k) as [th|] eqn:Ek; inversion E; subst s'; split; auto; cbn.
+      + apply set_nth_Forall; [exact Hf|]. cbn. apply Forall_app. split; [|constructor; [exact Hrq|constructor]].
+        rewrite Forall_forall in Hf. apply (Hf th). eapply nth_error_In; eauto.
+      + apply Forall_app. split; [exact Hf|]. constructor; [|constructor]. cbn. constructor; [exact Hrq|constructor].
+    - inversion E; subst s'. unfold restart.
+      match goal with |- context [if ?c then _ else _] => destruct c end.
+      + split; [reflexivity|constructor].
+      + split; [reflexivity|]. cbn. destruct (s_saved s) as [b|]; [|constructor].
+        destruct (m_preload m && m_state m && state_matches idx b); [|constructor].
+        apply Forall_forall. intros th Hin. apply in_map_iff in Hin. destruct Hin as [i [<- _]]. cbn.
+        constructor; [exact I|constructor].
+  Qed.
+End NoPanic.
+
+(* With at least one chunk in the index and no zero-length ReadAt, no goroutine ever indexes out of range. *)
+Theorem sparse_no_panic idx nullid store sched :
+  tiles_from 0 idx -> idx <> [] ->
+  s_crashed (run (step_nonzero idx nullid store) sched (init idx)) = false.
+Proof.
+  intros Ht Hne.
+  assert (Hr : nz_state (run (step_nonzero idx nullid store) sched (init idx))).
+  { apply (inv_run (step_nonzero idx nullid store) nz_state).
+    - intros s l s'. apply nz_step; assumption.
+    - split; [reflexivity|constructor]. }
+  exact (proj1 Hr).
+Qed.
